@@ -114,6 +114,7 @@ var e2eCheck = &core.Check{Name: "c10/e2e", Quick: 300, Thorough: 20000, Fn: fun
 	if err := tlbind.ToGo(s, reqT.typeExpr(), v, gv, nil); err != nil {
 		return err
 	}
+	setSliceForm(gv, c.Intn("slice.form", 3), c) // empty byte strings / vectors of the request: nil, non-nil, mixed
 	c.Note("function", f.Name)
 	c.Note("request", v.String())
 	kind := c.Weighted("answer", 6, 2, 1)
